@@ -766,18 +766,92 @@ func (fr *Frame) collectNames() {
 	// number of declarations is unchanged)
 	if fr.fc != nil && len(fr.fc.Locals) > 0 {
 		cur := declaredLocals(fr.fn)
-		if len(cur) == len(fr.fc.Locals) {
-			for i, old := range fr.fc.Locals {
-				if old != cur[i] && len(fr.names[old]) == 0 && len(fr.names[cur[i]]) > 0 {
-					fr.names[old] = fr.names[cur[i]]
-					if fr.renamed == nil {
-						fr.renamed = map[string]string{}
-					}
-					fr.renamed[old] = cur[i]
+		for old, now := range alignRenamed(fr.fc.Locals, cur) {
+			if len(fr.names[old]) == 0 && len(fr.names[now]) > 0 {
+				fr.names[old] = fr.names[now]
+				if fr.renamed == nil {
+					fr.renamed = map[string]string{}
+				}
+				fr.renamed[old] = now
+			}
+		}
+	}
+}
+
+// alignRenamed aligns the recorded list of declared locals with the current one
+// (longest common subsequence of names); where the stretch between two common
+// names has the same length in both lists, its entries are paired up position by
+// position: those are renamed locals. Added or removed declarations elsewhere in
+// the function do not disturb the pairing.
+func alignRenamed(rec, cur []string) map[string]string {
+	n, m := len(rec), len(cur)
+	lcs := make([][]int, n+1)
+	for i := range lcs {
+		lcs[i] = make([]int, m+1)
+	}
+	for i := n - 1; i >= 0; i-- {
+		for j := m - 1; j >= 0; j-- {
+			if rec[i] == cur[j] {
+				lcs[i][j] = lcs[i+1][j+1] + 1
+			} else if lcs[i+1][j] >= lcs[i][j+1] {
+				lcs[i][j] = lcs[i+1][j]
+			} else {
+				lcs[i][j] = lcs[i][j+1]
+			}
+		}
+	}
+	out := map[string]string{}
+	i, j := 0, 0
+	gi, gj := 0, 0 // start of the current gap
+	bare := func(x string) string { return strings.TrimSuffix(x, "@loop") }
+	pair := func(a, b []string) {
+		if len(a) != len(b) {
+			return
+		}
+		for k := range a {
+			if a[k] != b[k] {
+				if _, dup := out[bare(a[k])]; !dup {
+					out[bare(a[k])] = bare(b[k])
 				}
 			}
 		}
 	}
+	flush := func(ei, ej int) {
+		if ei-gi == ej-gj {
+			pair(rec[gi:ei], cur[gj:ej])
+			return
+		}
+		// unequal stretches: pair loop variables with loop variables and plain locals with
+		// plain locals when each kind has the same count on both sides
+		split := func(xs []string) (loop, plain []string) {
+			for _, x := range xs {
+				if strings.HasSuffix(x, "@loop") {
+					loop = append(loop, x)
+				} else {
+					plain = append(plain, x)
+				}
+			}
+			return
+		}
+		rl, rp := split(rec[gi:ei])
+		cl, cp := split(cur[gj:ej])
+		pair(rl, cl)
+		pair(rp, cp)
+	}
+	for i < n && j < m {
+		if rec[i] == cur[j] {
+			flush(i, j)
+			i++
+			j++
+			gi, gj = i, j
+		} else if lcs[i+1][j] >= lcs[i][j+1] {
+			i++
+		} else {
+			j++
+		}
+	}
+	flush(n, m)
+	return out
 }
 
 // declaredLocals lists the local variables a function declares (:=, var, range
@@ -795,9 +869,19 @@ func declaredLocals(fn *ssa.Function) []string {
 		return nil
 	}
 	var out []string
+	loopVars := map[*ast.Ident]bool{} // variables declared by a for-init clause
 	addIdent := func(e ast.Expr) {
 		if id, ok := e.(*ast.Ident); ok && id.Name != "_" {
-			out = append(out, id.Name)
+			if loopVars[id] {
+				out = append(out, id.Name+"@loop")
+			} else {
+				out = append(out, id.Name)
+			}
+		}
+	}
+	addLoopVar := func(e ast.Expr) {
+		if id, ok := e.(*ast.Ident); ok && id.Name != "_" {
+			out = append(out, id.Name+"@loop")
 		}
 	}
 	ast.Inspect(body, func(n ast.Node) bool {
@@ -811,10 +895,18 @@ func declaredLocals(fn *ssa.Function) []string {
 		case *ast.RangeStmt:
 			if x.Tok == token.DEFINE {
 				if x.Key != nil {
-					addIdent(x.Key)
+					addLoopVar(x.Key)
 				}
 				if x.Value != nil {
-					addIdent(x.Value)
+					addLoopVar(x.Value)
+				}
+			}
+		case *ast.ForStmt:
+			if as, ok := x.Init.(*ast.AssignStmt); ok && as.Tok == token.DEFINE {
+				for _, l := range as.Lhs {
+					if id, ok := l.(*ast.Ident); ok {
+						loopVars[id] = true
+					}
 				}
 			}
 		case *ast.GenDecl:
